@@ -242,6 +242,12 @@ class Source:
             except AnchorLost:
                 continue
             return header, rng
+        # a FREE function at the top level of the file (`fn is_currency_char(c: char) -> bool`): impl header "-"
+        for m in re.finditer(r"\bfn\s+" + re.escape(name) + r"\b", self.mask):
+            if self.in_tests(m.start()):
+                continue
+            if self.mask[:m.start()].count("{") == self.mask[:m.start()].count("}"):
+                return "-", (0, len(self.mask))
         return None
 
     def find_item(self, kind, name):
@@ -1114,11 +1120,11 @@ def generate(unit, template_path, canary=False, extra_fns=(), drop_hints=()):
         for ef in extra_fns:
             (rel, header, name, props), opaque = ef[:4], (len(ef) > 4 and ef[4])
             extra.append(("text", ["", f"// auto-included helper `{name}` from {rel} (called by an extracted body; no contract"
-                                   + ("; body OUTSIDE the Verus subset: kept opaque, result arbitrary)" if opaque else ")"), header + " {"], 0))
+                                   + ("; body OUTSIDE the Verus subset: kept opaque, result arbitrary)" if opaque else ")")] + ([header + " {"] if header != "-" else []), 0))
             extra.append(("fn", {"file": rel, "impl": header, "name": name, "props": list(props), "ret": None, "clauses": [], "loops": [],
                                  "rewrites": [], "inserts": [], "sigs": [], "attrs": ["#[verifier::external_body]"] if opaque else [], "tline": 0, "as": None, "novis": False,
                                  "external_body": bool(opaque), "arm": None, "auto": True}))
-            extra.append(("text", ["}"], 0))
+            extra.append(("text", ["}"] if header != "-" else [""], 0))
         # place before the closing `} // verus!` of the template
         for bi in range(len(blocks) - 1, -1, -1):
             if blocks[bi][0] == "text":
